@@ -6,6 +6,8 @@ import (
 
 type structValue struct{ wrapperValue }
 
+var errorType = reflect.TypeOf((*error)(nil)).Elem()
+
 func (sv structValue) IndexValue(index Value) Value {
 	return sv.PropertyValue(index)
 }
@@ -95,12 +97,14 @@ func (sv structValue) invoke(fv reflect.Value) Value {
 		return nilValue
 	}
 	mt := fv.Type()
-	if mt.NumIn() > 0 || mt.NumOut() > 2 {
+	// a property is a method without parameters that returns a value, or a value and an error
+	if mt.NumIn() > 0 || mt.NumOut() == 0 || mt.NumOut() > 2 || mt.NumOut() == 2 && !mt.Out(1).Implements(errorType) {
 		return nilValue
 	}
 	results := fv.Call([]reflect.Value{})
 	if len(results) > 1 && !results[1].IsNil() {
-		panic(results[1].Interface())
+		// the method failed: report it as an error of the expression, not as a crash
+		panic(typeErrorf("%v", results[1].Interface()))
 	}
 	return ValueOf(results[0].Interface())
 }
